@@ -192,6 +192,44 @@ fn measure_sized(sc: &OpSc, m: i64, big: usize, iset: &mut InstructionSet) -> Re
         st.code_stack.push(flat(2));
         st.exec_stack.push(flat(3));
         st.exec_stack.push(flat(4));
+        // deep stacks, many bindings, a larger graph, a deeply nested item, full queues
+        let n10 = big / 10;
+        for k in 0..n10 {
+            st.int_stack.push((k % 13) as i32);
+            st.float_stack.push((k % 7) as f32);
+            st.bool_stack.push(k % 2 == 0);
+            st.name_stack.push(format!("n{}", k % 50));
+        }
+        for k in 0..(big / 100) {
+            st.name_bindings.insert(format!("b{}", k), Item::int(k as i32));
+            st.index_stack.push(pushr::push::index::Index { current: 0, destination: k });
+        }
+        {
+            let mut g = pushr::push::graph::Graph::new();
+            let ids: Vec<usize> = (0..(big / 100).max(2)).map(|k| g.add_node((k % 5) as i32)).collect();
+            for w in ids.windows(2) {
+                g.add_edge(w[0], w[1], 0.5);
+                g.add_edge(w[1], ids[0], 0.25);
+            }
+            let g2 = g.clone();
+            st.graph_stack.push(g2);
+            st.graph_stack.push(g);
+            st.int_vector_stack.push(pushr::push::vector::IntVector::new(ids.iter().take(50).map(|x| *x as i32).collect()));
+        }
+        {
+            let mut deep = Item::int(1);
+            for _ in 0..(big / 100) {
+                deep = Item::list(vec![Item::int(2), deep]);
+            }
+            st.code_stack.push(deep.clone());
+            st.code_stack.push(deep);
+        }
+        while !st.input_stack.is_full() {
+            st.input_stack.push(pushr::push::io::PushMessage::new(
+                pushr::push::vector::IntVector::new(vec![1; 64]),
+                pushr::push::vector::BoolVector::new(vec![true; 64]),
+            ));
+        }
         // small scalar operands on top again
         for k in 0..4 {
             st.int_stack.push(sc.small_ints[k % sc.small_ints.len()]);
